@@ -7,6 +7,7 @@ import (
 
 	"verif/checks/c01"
 	"verif/checks/c02"
+	"verif/checks/c03"
 	"verif/checks/c04"
 	"verif/checks/c05"
 	"verif/checks/c06"
@@ -31,6 +32,7 @@ type check struct {
 var checks = map[string]check{
 	"C01": {"model_checking", c01.Run},
 	"C02": {"fault_enumeration", c02.Run},
+	"C03": {"exploration", c03.Run},
 	"C04": {"exploration", c04.Run},
 	"C05": {"exploration", c05.Run},
 	"C06": {"exploration", c06.Run},
